@@ -9,7 +9,8 @@
    Proofs/ConfigFacts (approved_build, counter_entry, stack_entry). *)
 From Coq Require Import List ZArith NArith Bool.
 From Tele Require Import Lib.Bytes Lib.Str Lib.Assoc Lib.Calendar Model.Config Model.ApprovalSpec Model.Report
-  Model.Approval Proofs.ConfigFacts Proofs.AggregateFacts Proofs.ReportFacts Proofs.ApprovalFacts Proofs.ApprovalOracle Proofs.ReportPrograms Proofs.ApprovalReports Proofs.ApprovalSequences.
+  Model.Approval Proofs.ConfigFacts Proofs.AggregateFacts Proofs.ReportFacts Proofs.ApprovalFacts Proofs.ApprovalOracle Proofs.ReportPrograms Proofs.ApprovalReports Proofs.ApprovalSequences Proofs.ApprovalCharts.
+From Coq Require Import Permutation.
 Import ListNotations.
 From Coq Require Import String. Open Scope string_scope. Open Scope N_scope. Open Scope list_scope.
 
@@ -250,6 +251,48 @@ Theorem C11_viewer_summary_oracle_model : forall u f,
   viewer_summary_check u f (viewer_summary (new_config u) f) = [].
 Proof. exact viewer_summary_check_model. Qed.
 Print Assumptions C11_viewer_summary_oracle_model.
+
+(* requests served at the same time (several clients, one configuration object,
+   one handler): in whatever order the handler gets to them, each receives the
+   answer it would receive alone. *)
+Theorem C11_serve_sequence_permutation : forall c reqs reqs',
+  Permutation reqs reqs' -> Permutation (serve_sequence c reqs) (serve_sequence c reqs').
+Proof. exact serve_sequence_permutation. Qed.
+Print Assumptions C11_serve_sequence_permutation.
+
+(* ---- Viewer, Charts section.  A chart is shown as present in the
+   configuration iff some configured COUNTER of the program belongs to it
+   (its collapsed name is <chart>:..., or it expands to the chart's name) ... *)
+Theorem C11_viewer_chart_active_listed : forall u prog name,
+  viewer_chart_active (new_config u) prog name = counter_chart_listedb u prog name.
+Proof. exact viewer_chart_active_listed. Qed.
+Print Assumptions C11_viewer_chart_active_listed.
+
+(* ... so no chart drawing an approved plain counter (one the uploader sends)
+   is called "not present in the telemetry config" - with or without a bucket
+   list in its configured name - for configurations whose bucket lists do not
+   introduce the chart separator ... *)
+Theorem C11_approved_counter_chart_active : forall u prog k,
+  chart_prefix_ok u -> is_stack k = false -> approved_counterb u prog k = true ->
+  viewer_chart_active (new_config u) prog (chart_name k) = true.
+Proof. exact approved_counter_chart_active. Qed.
+Print Assumptions C11_approved_counter_chart_active.
+
+(* ... and the chart oracle reports on the model only the stack class below. *)
+Theorem C11_viewer_chart_oracle_model : forall u files prog name, chart_prefix_ok u ->
+  forall cl, In cl (viewer_chart_check u files prog name (viewer_chart_active (new_config u) prog name)) ->
+  cl = AViewerChartStack /\ viewer_chart_active (new_config u) prog name = false /\
+  exists k, In k (chart_items files prog name) /\ is_stack k = true /\ approved_stackb u prog k = true.
+Proof. exact viewer_chart_check_model. Qed.
+Print Assumptions C11_viewer_chart_oracle_model.
+
+(* finding 20: charts never consult the configured stacks: the chart of an
+   approved stack counter, which the uploader sends, is called "not present in the telemetry config" *)
+Theorem C11_viewer_chart_stack_refuted :
+  exists u prog k, is_stack k = true /\ approved_stackb u prog k = true /\
+                   viewer_chart_active (new_config u) prog (chart_name k) = false.
+Proof. exact viewer_chart_stack_refuted. Qed.
+Print Assumptions C11_viewer_chart_stack_refuted.
 
 (* ---- Non-vacuity *)
 Definition ex_cfg : upload_cfg :=
